@@ -96,6 +96,7 @@ func asm(toks ...interface{}) []byte {
 //	3 revert slot3 = 0x55, then REVERT
 //	4 kill   SELFDESTRUCT(caller)
 //	5 child  CREATE a child with empty runtime code, slot4 = child address
+//	6 read   slot5 = slot1 + 7 (the result depends on READING slot 1; slot 1 itself is not written)
 //
 // The constructor stores 0x1234 in slot 1 (a value whose RLP encoding differs from the value itself).
 var contractRuntime = asm(
@@ -105,6 +106,7 @@ var contractRuntime = asm(
 	opDUP1, "#3", opEQ, "@rev", opJUMPI,
 	opDUP1, "#4", opEQ, "@kill", opJUMPI,
 	opDUP1, "#5", opEQ, "@child", opJUMPI,
+	opDUP1, "#6", opEQ, "@read", opJUMPI,
 	opSTOP,
 	":set", opTIMESTAMP, "#2", opSSTORE,
 	"#1", opSLOAD, "#1", opADD, "#1", opSSTORE,
@@ -116,6 +118,7 @@ var contractRuntime = asm(
 	":kill", opCALLER, opSELFDESTRUCT,
 	":child", opPUSH5, "raw:60006000f3", "#0", opMSTORE,
 	"#5", "#27", "#0", opCREATE, "#4", opSSTORE, opSTOP,
+	":read", "#1", opSLOAD, "#7", opADD, "#5", opSSTORE, opSTOP,
 )
 
 func initCodeFor(runtime []byte) []byte {
@@ -138,8 +141,8 @@ var loopingInit = asm(":top", "#1", "#1", opSSTORE, "@top", opJUMP) // burns all
 // templates
 
 type world struct {
-	kind     string         // "legacy" | "galaxias"
-	X        common.Address // the multi-purpose contract: CreateAddress(A, 0) in every pre-state
+	kind     string         // "legacy" | "galaxias" | "legacy+alloc" | "galaxias+alloc"
+	X        common.Address // the multi-purpose contract: contractAddr(kind)
 	ValSmc   [3]common.Address
 	NewValB  common.Address // validator contract that createValidator by B creates
 	valAbi   *abi.ABI
@@ -157,6 +160,8 @@ type tmpl struct {
 	Make  func(w *world, nonce uint64) *types.Transaction
 	// designed outcome when nothing earlier in the block interferes: "ok" | "failed" (receipt with status 0) | "skipped"
 	Want string
+	// ChainOnly templates are used by the multi-block chains only (not by the single-block enumeration)
+	ChainOnly bool
 }
 
 func keyOf(from string) *ecdsa.PrivateKey {
@@ -268,6 +273,7 @@ var alphabet = []tmpl{
 		}
 		return sign(types.NewTransaction(n, w.NewValB, big.NewInt(0), 3000000, two, in), keyB)
 	}},
+	{Name: "readB", From: "B", Nonce: plain, Want: "ok", ChainOnly: true, Make: func(w *world, n uint64) *types.Transaction { return call(w, "B", n, 6, two) }},
 	{Name: "exitV3", From: "V3", Nonce: plain, Want: "ok", Make: func(w *world, n uint64) *types.Transaction {
 		// genesis validator 3 withdraws its whole self delegation: it leaves the validator set
 		in, err := w.valAbi.Pack("undelegate")
@@ -280,6 +286,12 @@ var alphabet = []tmpl{
 
 // buildTxs instantiates a template sequence over a pre-state (base nonces of the senders).
 func buildTxs(w *world, seq []int, base map[string]uint64) []*types.Transaction {
+	txs, _ := buildTxsNext(w, seq, base)
+	return txs
+}
+
+// buildTxsNext also returns the senders' next expected nonces after the sequence (by design, see tmpl.Nonce).
+func buildTxsNext(w *world, seq []int, base map[string]uint64) ([]*types.Transaction, map[string]uint64) {
 	next := map[string]uint64{}
 	for k, v := range base {
 		next[k] = v
@@ -290,7 +302,7 @@ func buildTxs(w *world, seq []int, base map[string]uint64) []*types.Transaction 
 		var n uint64
 		var consumes bool
 		if t.Name == "xferProtB" {
-			n, consumes = next[t.From], w.kind == "galaxias"
+			n, consumes = next[t.From], strings.HasPrefix(w.kind, "galaxias")
 		} else {
 			n, consumes = t.Nonce(next[t.From])
 		}
